@@ -8,6 +8,8 @@ harness for the block decomposition.
 
 from hypothesis import strategies as st
 
+from fractions import Fraction
+
 from vf import gen, lin
 from vf.core import LibRaised
 from vf.semi import model
@@ -45,7 +47,15 @@ def strategy(draw, tier="quick"):
         for j, w in zip(by[i], ws):
             edges.append([names[i], names[j], w])
     b = [[names[i], gen._end_weight(draw, regime)] for i in range(n) if draw(st.integers(0, 2)) == 0]
-    return {"regime": regime, "nodes": names, "edges": edges, "b": b}
+    signed = False
+    if regime == "QQ" and draw(st.integers(0, 3)) == 0:
+        # signed weights: parallel edges (the graph is built with G[i, j] += w) may cancel exactly
+        edges = [[i, j, (gen.F(-Fraction(w)) if draw(st.integers(0, 2)) == 0 else w)] for i, j, w in edges]
+        if edges and draw(st.booleans()):
+            i, j, w = edges[draw(st.integers(0, len(edges) - 1))]
+            edges.append([i, j, gen.F(-Fraction(w))])
+        signed = True
+    return {"regime": regime, "nodes": names, "edges": edges, "b": b, "signed": signed}
 
 
 def check(case, ctx):
@@ -84,7 +94,7 @@ def check(case, ctx):
     comps = set(comp.values())
     cyclic = [c for c in comps if len(c) > 1 or not M.is_zero(A[min(c)][min(c)])]
     cross = any(comp[i] != comp[j] and not M.is_zero(A[i][j]) for i in range(n) for j in range(n))
-    ctx.cls("regime:" + case["regime"], f"sccs_cyclic:{min(len(cyclic), 3)}", "cross_edges" if cross else None)
+    ctx.cls("regime:" + case["regime"], f"sccs_cyclic:{min(len(cyclic), 3)}", "cross_edges" if cross else None, "signed_weights" if case.get("signed") else None)
     ctx.nontrivial = len(cyclic) >= 2 or (len(cyclic) >= 1 and cross)
 
     zero = M.lib.zero
